@@ -66,6 +66,7 @@ class Runner:
         self.units = {}; self.functions = {}
         self.mem_lock = threading.Condition(); self.mem_used = 0
         self.validation = []
+        self.running = {}; self.abort = False; self.run_lock = threading.Lock()
         self.log = open(os.path.join(self.work, 'run.log'), 'w')
 
     def safe(self, name):
@@ -192,6 +193,10 @@ class Runner:
             self.mem_used -= gb; self.mem_lock.notify_all()
 
     def run_query(self, q):
+        if self.abort:
+            q.res = {'name': q.name, 'kind': q.kind, 'expect': q.expect, 'wall_s': 0.0, 'bounds': q.bounds, 'entry': q.entry, 'harness': q.harness, 'defs': q.defs, 'verdict': 'skipped', 'failed': [],
+                     'note': 'not run: a violation had already been found and confirmed in this run (fail-fast)'}
+            return q.res
         self.acquire(q.mem_gb)
         try:
             return self._run_query(q)
@@ -233,6 +238,7 @@ class Runner:
         wrapper = 'ulimit -v %d; exec /usr/bin/time -f "VPRSS=%%M" "$@"' % (int(q.mem_gb * 1024 * 1024))
         with open(out, 'w') as fo:
             p = subprocess.Popen(['bash', '-c', wrapper, 'x'] + cmd, stdout=fo, stderr=subprocess.STDOUT, start_new_session=True)
+            with self.run_lock: self.running[p.pid] = p
             try:
                 p.wait(timeout=q.timeout); timed_out = False
             except subprocess.TimeoutExpired:
@@ -240,6 +246,7 @@ class Runner:
                 try: os.killpg(p.pid, signal.SIGKILL)
                 except ProcessLookupError: pass
                 p.wait()
+        with self.run_lock: self.running.pop(p.pid, None)
         wall = time.time() - t0
         txt = open(out, errors='replace').read()
         res = {'name': q.name, 'kind': q.kind, 'expect': q.expect, 'wall_s': round(wall, 1), 'bounds': q.bounds, 'entry': q.entry,
@@ -258,7 +265,8 @@ class Runner:
         res['witness_reached'] = len(set(d for (_, _, d) in failed if d.startswith('WITNESS')))
         m = re.search(r'\*\* (\d+) of (\d+) failed', txt)
         if m: res['props_failed'] = int(m.group(1)); res['props_total'] = int(m.group(2))
-        if timed_out: res['verdict'] = 'timeout'
+        if self.abort and p.returncode in (-9, 137): res['verdict'] = 'skipped'; res['note'] = 'stopped: a violation had already been found and confirmed in this run (fail-fast)'
+        elif timed_out: res['verdict'] = 'timeout'
         elif 'VERIFICATION SUCCESSFUL' in txt: res['verdict'] = 'verified'
         elif 'VERIFICATION FAILED' in txt: res['verdict'] = 'failed' if res['failed'] else 'verified'
         elif re.search(r'std::bad_alloc|Out of memory|out of memory|MemoryError|Killed|memory exhausted', txt) or p.returncode in (-9, 137, 134, -6): res['verdict'] = 'out-of-memory'
@@ -376,8 +384,21 @@ class Runner:
             futs = {ex.submit(self.run_query, q): q for q in qs_sorted}
             for f in as_completed(futs):
                 q = futs[f]; r = f.result()
-                self.say('  [%s] %-40s %-9s %6.1fs %s%s' % (q.kind, q.name, r['verdict'], r['wall_s'], ('%d MB' % r['rss_mb']) if r.get('rss_mb') else '',
-                         ('  failed: ' + '; '.join(sorted(set(x['desc'] for x in r['failed']))[:3])) if r['failed'] and q.kind == 'main' else ''))
+                if r['verdict'] != 'skipped':
+                    self.say('  [%s] %-40s %-9s %6.1fs %s%s' % (q.kind, q.name, r['verdict'], r['wall_s'], ('%d MB' % r['rss_mb']) if r.get('rss_mb') else '',
+                             ('  failed: ' + '; '.join(sorted(set(x['desc'] for x in r['failed']))[:3])) if r['failed'] and q.kind == 'main' else ''))
+                # fail-fast (default): once a main query has a real counterexample, stop the queries still running or queued -- a seeded defect can make
+                # other queries explode (e.g. a parser running off its buffer in single-path mode) and the verdict of the run is already decided
+                if (not self.abort and os.environ.get('VP_FAILFAST', '1') != '0' and q.kind == 'main' and r['verdict'] == 'failed'
+                        and any(not x['desc'].startswith('WITNESS') and 'unwinding assertion' not in x['desc'] for x in r['failed'])):
+                    nfail = getattr(self, 'nfail', 0) + 1; self.nfail = nfail
+                    if nfail >= int(os.environ.get('VP_FAILFAST_AFTER', '3')):
+                        self.abort = True
+                        self.say('[run] %d queries have counterexamples: stopping the remaining queries (fail-fast; VP_FAILFAST=0 runs everything)' % nfail)
+                        with self.run_lock:
+                            for pid in list(self.running):
+                                try: os.killpg(pid, signal.SIGKILL)
+                                except ProcessLookupError: pass
         return self.judge(qs)
 
     def judge(self, qs):
@@ -386,6 +407,7 @@ class Runner:
         open_keys = {k['key']: k for k in kf if k['status'] == 'open'}
         for q in qs:
             r = q.res
+            if r['verdict'] == 'skipped': continue
             if r['verdict'] in ('timeout', 'out-of-memory'):
                 (noverdict if q.optional else broken).append((q, 'no verdict (%s after %.0fs)' % (r['verdict'], r['wall_s'])))
                 if q.optional: r['note'] = 'optional stretch query without verdict: not part of the claim'
